@@ -492,6 +492,19 @@ func (s *Sim) Run() (res Result) {
 		var run []*Task
 		var idle []*Task
 		live, blockedSim := 0, 0
+		// finished tasks are dropped (a long run with a short tick creates one task per timer firing)
+		if len(s.tasks) > 64 {
+			keep := s.tasks[:0]
+			for _, t := range s.tasks {
+				if t.state != stDone {
+					keep = append(keep, t)
+				}
+			}
+			for i := len(keep); i < len(s.tasks); i++ {
+				s.tasks[i] = nil
+			}
+			s.tasks = keep
+		}
 		for _, t := range s.tasks {
 			switch t.state {
 			case stRunnable:
